@@ -64,8 +64,15 @@ elif "rotate_dihedral" in label or "dihedral" in label:
             bad.append("atoms on the fixed side moved")
             break
 elif "rotation_matrix_from_vectors" in label:
-    for t in range(50):
+    for t in range(80):
         a, b = rng.normal(size=3), rng.normal(size=3)
+        if t % 4 == 1:
+            b = -a * rng.uniform(0.3, 3.0)              # exactly opposite
+        elif t % 4 == 2:
+            b = -a + rng.normal(size=3) * 1e-9          # nearly opposite
+        elif t % 4 == 3:
+            a = np.eye(3)[t % 3] * rng.uniform(0.5, 2)  # along a coordinate axis, opposite
+            b = -a * 1.7
         R = rotation_matrix_from_vectors(a, b)
         if not np.allclose(a / np.linalg.norm(a) @ R, b / np.linalg.norm(b), atol=1e-8) or not np.allclose(R @ R.T, np.eye(3), atol=1e-8) or abs(np.linalg.det(R) - 1) > 1e-8:
             bad.append(f"rotation_matrix_from_vectors({a}, {b}) is not the proper rotation a->b")
